@@ -46,6 +46,17 @@ theorem C14_encode (chunks : List (List UInt8)) :
   rw [finish_spec e hs, hp []]
   simp [pendingText, carry, Enc.new]
 
+/-- Encoding with `flush` calls anywhere between the writes: `flush` neither emits the pending group nor
+    forgets it — the result is still the RFC 4648 text of the bytes written. -/
+theorem C14_encode_flush (ops : List EncOp) :
+    encodeOps ops = .ok (rfcEncode (written ops)) := by
+  obtain ⟨e, hw, hs, hp⟩ := runOps_spec ops Enc.new (by decide)
+  unfold encodeOps
+  rw [hw]
+  simp only
+  rw [finish_spec e hs, hp []]
+  simp [pendingText, carry, Enc.new]
+
 /-- Decoding, refinement form: for every plain byte string `d`, every schedule of the underlying reader (any
     finite sequence of per-call maxima and `Interrupted` failures, then at most `tail` bytes per call for ever —
     e.g. one byte at a time) and every sequence of destination buffer sizes, reading the RFC 4648 text of `d`
